@@ -93,6 +93,9 @@ func c09Gen(class string, seed uint64, tier string) *vfScenario {
 		sc.Cfg["window"] = int64(2 + rng.IntN(8)) // pipelined: tree invariant and denial table only
 	}
 	sc.Cfg["sites"] = int64(1 + rng.IntN(3))
+	if rng.IntN(4) == 0 {
+		sc.Cfg["extconf"] = int64(1 + rng.IntN(8))
+	}
 	sc.Ops = []vfOp{{K: "init", A: 3}}
 	slots := 0
 	var open []int
@@ -247,6 +250,19 @@ func c09DiffSig(a, b string) string {
 }
 
 func c09Exec(r *vfRun) {
+	if ext := r.sc.cfg("extconf", 0); ext > 0 {
+		// the package-wide extension list is configured to a subset (both servers see the same configuration):
+		// a modifying extension that is switched off is still a modifying request
+		var names []string
+		for i, n := range []string{"hardlink@openssh.com", "posix-rename@openssh.com", "statvfs@openssh.com"} {
+			if ext&(1<<i) != 0 && ext < 8 {
+				names = append(names, n)
+			}
+		}
+		SetSFTPExtensions(names...)
+		defer func() { sftpExtensions = supportedSFTPExtensions }()
+		r.sim.count("probe.extensions_reconfigured")
+	}
 	simA := r.sim
 	mark := len(simA.tape.out)
 	ro := c09Run(r, simA, true)
